@@ -95,6 +95,12 @@ SPECS = [
     dict(file="admm/solver.py", func="soft_threshold_prox",
          params={"scaled_point_sum": "scalar", "lambda_sum": "scalar", "rho_times_r": "scalar"}, ret="scalar",
          field=True),
+    dict(file="likelihood.py", func="point_log_likelihood_fast",
+         params={"point": "arr1", "mu_i": "arr1", "theta_i": "arr2", "log_det_theta": "scalar", "window_size": "int",
+                 "num_data_series": "int"}, ret="scalar", field=True, consts=["log2pi"]),
+    dict(file="likelihood.py", func="all_points_all_clusters_log_likelihood_fast",
+         params={"window_size": "int", "num_clusters": "int", "mus": "arr2", "thetas": ("list", "arr2"),
+                 "log_det_thetas": "arr1", "stacked_training_data": "arr2"}, ret="arr2", field=True, consts=["log2pi"]),
     dict(file="cluster_label_assignment.py", func="assign_point_cluster_labels",
          params={"label_assignment_cost": "arr2", "label_switching_cost": "sov"},
          ret=("tuple", ("list", "int"), "scalar"), scalar=True),
@@ -199,6 +205,10 @@ class FuncTranslator:
                 return ("true" if e.value else "false"), "bool"
             if isinstance(e.value, int):
                 return f"({e.value} : Int)", "int"
+            if isinstance(e.value, float) and self.spec.get("field"):
+                from fractions import Fraction as _F
+                fr = _F(e.value)                   # the double, exactly
+                return f"((({fr.numerator} : Int) : α) / (({fr.denominator} : Int) : α))", "scalar"
             raise Unsupported(f"constant {e.value!r}")
         if isinstance(e, ast.UnaryOp) and isinstance(e.op, ast.USub):
             if isinstance(e.operand, ast.Constant) and isinstance(e.operand.value, int):
@@ -237,6 +247,11 @@ class FuncTranslator:
         if isinstance(e, ast.Subscript):
             return self.subscript(e)
         if isinstance(e, ast.Attribute):
+            if e.attr == "T":
+                s0, t0 = self.expr(e.value)
+                if t0 == "arr1":
+                    return s0, t0               # transposing a 1-d array is the identity
+                raise Unsupported("transpose of " + str(t0))
             if e.attr == "shape":
                 s, t = self.expr(e.value)
                 if t in ("arr2", "arr2int"):
@@ -278,6 +293,14 @@ class FuncTranslator:
         l, lt = self.expr(e.left)
         r, rt = self.expr(e.right)
         op = type(e.op)
+        if op is ast.MatMult and self.spec.get("field"):
+            if lt == "arr1" and rt == "arr2":
+                return f"(Py.vecMat {l} {r})", "arr1"
+            if lt == "arr1" and rt == "arr1":
+                return f"(Py.dot {l} {r})", "scalar"
+            raise Unsupported(f"matmul of {lt}, {rt}")
+        if op is ast.Sub and lt == "arr1" and rt == "arr1":
+            return f"(Py.Arr1.sub {l} {r})", "arr1"
         islist = lambda t: isinstance(t, tuple) and t[0] == "list"
         if op is ast.Add:
             if islist(lt) and islist(rt):
@@ -411,6 +434,8 @@ class FuncTranslator:
         raise Unsupported("shape argument")
 
     def call(self, e):
+        if "log2pi" in (self.spec.get("consts") or []) and ast.dump(e) == ast.dump(ast.parse("np.log(2 * math.pi)", mode="eval").body):
+            return "log2pi", "scalar"           # the constant log(2 pi): a parameter of the translated function
         f = e.func
         name = None
         if isinstance(f, ast.Name):
@@ -437,6 +462,8 @@ class FuncTranslator:
             return f"(Py.{name}2 {a} {b})", t
         if name == "len" and len(args) == 1:
             s, t = self.expr(args[0])
+            if t in ("arr2", "arr2int"):
+                return f"(Py.Arr2.shape0 {s})", "int"
             if isinstance(t, tuple) and t[0] == "list":
                 return f"(Py.len {s})", "int"
             raise Unsupported("len of " + str(t))
@@ -455,6 +482,8 @@ class FuncTranslator:
             if t == ("list", "int"):
                 return f"(Py.accumulate {s})", t
             raise Unsupported("accumulate of " + str(t))
+        if name == "numba_guard.prange":
+            name = "range"                       # a parallel range is a range (C15: the iterations write disjoint cells)
         if name == "range":
             parts = [self.expr(a) for a in args]
             if any(p[1] != "int" for p in parts) or not 1 <= len(parts) <= 3:
@@ -473,7 +502,7 @@ class FuncTranslator:
             dims = self.shape_args(shape_node)
             dt = kw.get("dtype")
             isint = dt is not None and isinstance(dt, ast.Attribute) and dt.attr.startswith(("uint", "int"))
-            if dt is not None and not isint:
+            if dt is not None and not isint and not (isinstance(dt, ast.Attribute) and dt.attr == "float64"):
                 raise Unsupported("dtype")
             if len(dims) == 1 and not isint:
                 return f"(Py.Arr1.const {dims[0]} ({fill} : α))", "arr1"
@@ -493,14 +522,17 @@ class FuncTranslator:
                 return f"(Py.Arr1.argmin {s})", "int"
             raise Unsupported("argmin of " + str(t))
         if name in self.known:
-            ptypes, ret, mr = self.known[name]
+            ptypes, ret, mr = self.known[name][:3]
+            extra = self.known[name][3] if len(self.known[name]) > 3 else []
+            if any(c not in (self.spec.get("consts") or []) for c in extra):
+                raise Unsupported("callee needs a constant this function does not have")
             parts = [self.expr(a) for a in args]
             if len(parts) != len(ptypes) or kw:
                 raise Unsupported("call arity")
             for (s, t), pt in zip(parts, ptypes):
                 if t != pt:
                     raise Unsupported(f"argument type {t} for {pt}")
-            text = f"({name} " + " ".join(p[0] for p in parts) + ")"
+            text = f"({name} " + " ".join(list(extra) + [p[0] for p in parts]) + ")"
             if mr:
                 return ("RAISES", text), ret
             return text, ret
@@ -794,7 +826,8 @@ class FuncTranslator:
             text = "  do\n" + "\n".join("  " + l for l in text.split("\n"))
         else:
             text = text.replace("RETURN ", "")
-        params = " ".join(f"({n} : {lean_type(t)})" for n, t in self.spec["params"].items())
+        params = " ".join([f"({c} : α)" for c in (self.spec.get("consts") or [])]
+                          + [f"({n} : {lean_type(t)})" for n, t in self.spec["params"].items()])
         return f"def {fd.name} {params} : {ret} :=\n{text}\n", self.may_raise
 
 
@@ -806,6 +839,8 @@ def _parse_for(t, tok, var):
         return f"let {var} ← parseInts? {tok}", var
     if t == "scalar":
         return f"let {var} ← parseRat? {tok}", var
+    if t == "arr1":
+        return f"let {var} ← parseRats? {tok}", f"(Py.Arr1.ofList {var} : Py.Arr1 Rat)"
     if t == "arr2":
         return (f"let {var} ← parseRatss? {tok}",
                 f"(Py.Arr2.ofLists {var} (({var}.headD []).length) : Py.Arr2 Rat)")
@@ -849,9 +884,13 @@ def exec_wrappers(available, known):
         name = spec["func"]
         if name not in available:
             continue
-        toks = [f"a{k}" for k in range(len(spec["params"]))]
+        consts = list(spec.get("consts") or [])
+        toks = [f"a{k}" for k in range(len(consts) + len(spec["params"]))]
         lets, passed = [], []
-        for k, (pn, pt) in enumerate(spec["params"].items()):
+        for k, cn in enumerate(consts):
+            lets.append(f"let c{k} ← parseRat? {toks[k]}")
+            passed.append(f"c{k}")
+        for k, (pn, pt) in enumerate(spec["params"].items(), start=len(consts)):
             st, ex = _parse_for(pt, toks[k], f"x{k}")
             lets.append(st)
             passed.append(ex)
@@ -889,7 +928,7 @@ open FastTicc
 
 SCALAR_VARS = "variable {α : Type} [Zero α] [Add α] [Sub α] [LT α] [DecidableLT α]\n"
 ONES_VARS = "variable {α : Type} [Zero α] [One α]\n"
-FIELD_VARS = "variable {α : Type} [Add α] [Sub α] [Mul α] [Div α] [LT α] [DecidableLT α] [IntCast α]\n"
+FIELD_VARS = "variable {α : Type} [Zero α] [Add α] [Sub α] [Mul α] [Div α] [LT α] [DecidableLT α] [IntCast α]\n"
 
 
 def translate_all(repo, exclude=None):
@@ -912,7 +951,7 @@ def translate_all(repo, exclude=None):
             fdef = _Renamer().visit(fdefs[0])
             tr = FuncTranslator(spec, fdef, known)
             text, may_raise = tr.translate()
-            known[name] = (list(spec["params"].values()), spec["ret"], may_raise)
+            known[name] = (list(spec["params"].values()), spec["ret"], may_raise, list(spec.get("consts") or []))
             text = f"/-- translated from {SRC}/{spec['file']}::{name} -/\n" + text
             if spec.get("field"):
                 text = "section\n" + FIELD_VARS + text + "end\n"
